@@ -769,7 +769,14 @@ func c10r14(c *Ctx, r *Report) {
 		good := false
 		for v := range backwardSlice(ret.Results[0], func(*ssa.CallCommon) bool { return true }, nil) {
 			call, ok := v.(*ssa.Call)
-			if !ok || calleeName(call.Common()) != "strings.SplitAfter" || len(call.Call.Args) != 2 {
+			if !ok {
+				continue
+			}
+			// strings.SplitAfter(text, sep), or the same spelled strings.SplitAfterN(text, sep, -1)
+			switch nm := calleeName(call.Common()); {
+			case nm == "strings.SplitAfter" && len(call.Call.Args) == 2:
+			case nm == "strings.SplitAfterN" && len(call.Call.Args) == 3 && isConstInt(call.Call.Args[2], -1):
+			default:
 				continue
 			}
 			sep := call.Call.Args[1]
